@@ -19,6 +19,7 @@ def confirm(src, dest_id, prop):
     shutil.copy("/repo/probdiffeq/_version.py", f"{wt}/probdiffeq/_version.py")
     env = dict(os.environ, PYTHONPATH=wt)
     res = {"property": prop, "source": src}
+    rebased = None
     # demos may assert the worktree they were written in: retarget them to the scratch worktree
     origin_root = os.path.dirname(os.path.abspath(src))
     demo_txt = open(f"{src}/demo.py").read().replace(origin_root, wt)
@@ -29,7 +30,13 @@ def confirm(src, dest_id, prop):
         rc, out = sh(f"{PY} {src_demo}/demo.py", cwd=wt, env=env)
         res["demo_unchanged"] = {"exit": rc, "tail": out[-300:]}
         rc, out = sh(f"git apply {src}/patch.diff", cwd=wt)
-        assert rc == 0, "patch does not apply: " + out
+        if rc != 0:
+            # the seed was written against an earlier HEAD (before a later fix: commit touched a context line): re-apply with fuzz and regenerate the diff
+            rc, out = sh(f"patch -p1 -F3 -s < {src}/patch.diff", cwd=wt)
+            assert rc == 0, "patch does not apply: " + out
+            rc, newdiff = sh("git diff -- probdiffeq", cwd=wt)
+            res["rebased"] = "patch re-applied with fuzz onto the current HEAD (a later fix: commit had changed a context line)"
+            rebased = newdiff
         rc, out = sh(f"{PY} {src_demo}/demo.py", cwd=wt, env=env)
         res["demo_with_change"] = {"exit": rc, "tail": out[-300:]}
         rc, out = sh(f"{PY} -m pytest -q -p no:cacheprovider --timeout=900 -n 8 -x", cwd=wt, env=env)
@@ -42,7 +49,10 @@ def confirm(src, dest_id, prop):
     if ok:
         d = os.path.join(VERIF, "seeded", dest_id)
         os.makedirs(d, exist_ok=True)
-        shutil.copy(f"{src}/patch.diff", f"{d}/patch.diff")
+        if rebased is not None:
+            open(f"{d}/patch.diff", "w").write(rebased)
+        else:
+            shutil.copy(f"{src}/patch.diff", f"{d}/patch.diff")
         shutil.copy(f"{src}/demo.py", f"{d}/demo.py")
         notes = open(f"{src}/notes.md").read() if os.path.exists(f"{src}/notes.md") else ""
         open(f"{d}/notes.md", "w").write(notes)
